@@ -19,6 +19,8 @@ ASSUMPTIONS = [
     'distinct breakpoints: zero-width segments (repeated interior knots) make numpy divide 0/0 and are outside',
     'the constructor receives sorted abscissae when everyn is used (as iterfit supplies them); for the other '
     'options only min/max of the data matter and unsorted data are exercised',
+    'every-n with nx // everyn >= 2 (a single every-n breakpoint ends at x.max() and cannot cover x.min(): '
+    'KnotsProofs.knots_everyn_single; model and code agree on that degenerate case)',
     'order 1 at an interior knot: the value is convention dependent; the specification accepts either one-sided value',
 ]
 
@@ -81,7 +83,7 @@ def gen_call(rng, idx):
     hi = lo + rng.choice([1, 2, 8, 30, 100])
     bits = rng.choice([4, 8, 10])
     style = rng.choice(['uniform', 'uniform', 'clustered', 'repeated', 'longmantissa'])
-    n = rng.randint(8, 36)
+    n = rng.randint(8, 36) if k <= 4 else rng.randint(8, 20)
     if kind == 'everyn':
         style = rng.choice(['uniform', 'longmantissa'])
         xs = sorted(set(gen_xs(rng, n, style, lo, hi, bits)))
@@ -119,7 +121,7 @@ def gen_call(rng, idx):
         value = rng.randint(1, max(1, len(xs) // 2))
     bkspread = rng.choice([1.0, 1.0, 1.0, 0.5, 2.0])
     coeff = [C.dyadic(rng, -8, 8, 6) for _ in range(64)]
-    ne = rng.randint(6, 14)
+    ne = rng.randint(6, 14) if k <= 4 else rng.randint(3, 6)
     xe = [C.dyadic(rng, xmin - rg / 8, xmax + rg / 8, 12) for _ in range(ne)]
     xe += rng.sample(xs, min(len(xs), 4))                      # data points themselves
     keys = None if rng.random() < 0.3 else [rng.randrange(1 << 30) for _ in range(97)]
@@ -140,7 +142,7 @@ def correspond(ctx, proof_ok=True):
     if not ok:
         raise RuntimeError('C08/Model.v does not build:\n' + log[-2000:])
     rng = ctx.rng
-    ncases = ctx.n(180, 3000)
+    ncases = ctx.n(150, 3000)
     calls = [gen_call(rng, i) for i in range(ncases)]
     nb = 8
     outs = C.run_impl_parallel('c08_impl.py', [calls[i::nb] for i in range(nb)])
